@@ -28,6 +28,9 @@ const prop = "C07"
 
 var run *h.Run
 
+// specs is the deterministic case list of this (seed, tier).
+var specs []spec
+
 // spec is one generated case: exactly one of the pointers is set.
 type spec struct {
 	Vhost  *vhostSpec  `json:"vhost,omitempty"`
@@ -46,7 +49,6 @@ type pendingReq struct {
 	Lines  []hdrLine
 	Judged int
 	Key    func(rec seenRec, b *backend) string
-	Data   map[string]any
 	// Presented overrides carries(Lines, cred) (socks5: credentials travel in the sub-negotiation).
 	Presented func(c cred) bool
 }
@@ -57,7 +59,7 @@ var (
 )
 
 func register(c *h.Case, tag string, lines []hdrLine, key func(seenRec, *backend) string, presented func(cred) bool) *pendingReq {
-	p := &pendingReq{Idx: c.Idx, Lines: lines, Key: key, Data: c.Data, Presented: presented}
+	p := &pendingReq{Idx: c.Idx, Lines: lines, Key: key, Presented: presented}
 	pendMu.Lock()
 	pending[tag] = p
 	pendMu.Unlock()
@@ -103,7 +105,7 @@ func judgeSeen(c *h.Case, tag string) []string {
 
 func main() {
 	run = h.NewRun(prop, "exploration")
-	run.Rule = "request shapes enumerated from a finite grammar: (request form: origin / absolute / absolute with decoy Host / authority-CONNECT / h2c prior-knowledge / h2c Upgrade + later streams) x (HTTP/1.0, 1.1) x (Authorization variants) x (Proxy-Authorization variants) x (header-name casing, duplicated lines, host spelling, method) x route tables mixing protected, unprotected, user-routed, location-, wildcard-, subdomain- and group-routed proxies on one host; the core product (12 x 12 credential variants x 3 forms x every table) is enumerated exhaustively, the rest is PRNG-sampled; same for tcpmux CONNECT (passthrough on/off), the http_proxy / socks5 / static_file plugins (user+password, password-only, user-only) and every route of the frps dashboard / frpc admin API; distinct = distinct (surface, table, shape) tuple"
+	run.Rule = "request shapes enumerated from a finite grammar: (request form: origin / absolute / absolute with decoy Host / authority-CONNECT / h2c prior-knowledge / h2c Upgrade + later streams) x (HTTP/1.0, 1.1) x (Authorization variants) x (Proxy-Authorization variants) x (header-name casing, duplicated lines, host spelling, method) x route tables mixing protected, unprotected, user-routed, location-, wildcard-, subdomain- and group-routed proxies on one host; the core product (12 x 12 credential variants [thorough: 28 x 28] x 4 forms x HTTP/1.0, 1.1 x every table) is enumerated exhaustively, the rest is PRNG-sampled; same for tcpmux CONNECT (passthrough on/off), the http_proxy / socks5 / static_file plugins (user+password, password-only, user-only) and every route of the frps dashboard / frpc admin API; distinct = distinct (surface, table, shape) tuple"
 	run.Assumptions = []string{
 		"'presents exactly that user name and password' is read in the weakest way: some Authorization or Proxy-Authorization line of the request has a token that base64-decodes (any alphabet, padding optional) to user:password; for socks5: the RFC 1929 sub-negotiation sent exactly user and password",
 		"a protected backend is 'reached' when its HTTP server logs a request carrying the case's unique tag (every relayed byte stream of the check starts with a tagged HTTP request)",
@@ -113,7 +115,7 @@ func main() {
 	}
 	setupEnv()
 
-	specs := generate()
+	specs = generate()
 	run.Set("cases_by_surface", surfaceCounts(specs))
 	workers := 24
 	run.Parallel(len(specs), workers, func(c *h.Case) {
@@ -152,7 +154,7 @@ func main() {
 		pendMu.Unlock()
 		if len(seen(t)) > p.Judged {
 			c := run.NewCase(p.Idx)
-			c.Data = p.Data
+			c.Data["spec"] = specs[p.Idx]
 			c.Ev("late-sweep", "tag", t)
 			judgeSeen(c, t)
 			run.Count("late_backend_sightings", 1)
